@@ -296,6 +296,34 @@ func checkC11(c *Ctx) {
 			}
 		}
 	}
+	// files no parser produced: nodes built from struct literals with the minimal fields (a FuncType without
+	// a parameter list, field lists without brackets, literals without Kind, ...), restored plainly, with
+	// import management and with Extras; the restorer's maps obey the same laws
+	for hi, hf := range c11HandFiles() {
+		for _, mode := range []string{"plain", "imports", "extras"} {
+			df := dst.Clone(hf).(*dst.File)
+			r := decorator.NewRestorer()
+			if hi == 2 { // identifiers with paths: import management is required
+				r = decorator.NewRestorerWithImports("example.com/local", guess.New())
+			}
+			switch mode {
+			case "imports":
+				r = decorator.NewRestorerWithImports("example.com/local", guess.New())
+			case "extras":
+				r.Extras = true
+			}
+			key := fmt.Sprintf("hand-built-%d|%s|restorer", hi, mode)
+			var raf *ast.File
+			var rerr error
+			if msg := guard(func() { raf, rerr = r.RestoreFile(df) }); msg != "" || rerr != nil {
+				c.Fail(Finding{Sig: "maps-observe-fails", Input: key, What: fmt.Sprintf("restoring a hand-built file: %s %v", msg, rerr), Replay: obj{"kind": "none"}})
+				continue
+			}
+			b, _ := json.Marshal(mapsRecord("restorer", raf, df, r.Map))
+			c.Eval(key, true)
+			items = append(items, traceItem{Key: key, Trace: append(b, '\n'), Events: 1, Replay: obj{"kind": "none"}})
+		}
+	}
 	c.Traces(int64(len(items)))
 	validateTraces(c, "MapsTrace", mapsTraceCfg, items, 12, false, func(it traceItem, res *TLCResult) {
 		side := "decorator"
@@ -362,5 +390,32 @@ func init() {
 			})
 		}
 		return out
+	}
+}
+
+func c11HandFiles() []*dst.File {
+	var all []dst.Decl
+	for i, sh := range c02HandShapes {
+		all = append(all, sh.mk(i+1))
+	}
+	return []*dst.File{
+		{Name: dst.NewIdent("p"), Decls: []dst.Decl{
+			&dst.FuncDecl{Name: dst.NewIdent("f"), Type: &dst.FuncType{}, Body: &dst.BlockStmt{}},
+			&dst.GenDecl{Tok: token.VAR, Specs: []dst.Spec{&dst.ValueSpec{Names: []*dst.Ident{dst.NewIdent("g")},
+				Values: []dst.Expr{&dst.FuncLit{Type: &dst.FuncType{}, Body: &dst.BlockStmt{List: []dst.Stmt{&dst.ReturnStmt{}}}}}}}},
+			&dst.FuncDecl{Name: dst.NewIdent("h"), Type: &dst.FuncType{Results: &dst.FieldList{List: []*dst.Field{{Type: dst.NewIdent("int")}}}},
+				Body: &dst.BlockStmt{List: []dst.Stmt{&dst.ReturnStmt{Results: []dst.Expr{&dst.BasicLit{Value: "1"}}}}}},
+		}},
+		{Name: dst.NewIdent("p"), Decls: all},
+		{Name: dst.NewIdent("p"), Decls: []dst.Decl{
+			&dst.GenDecl{Tok: token.IMPORT, Specs: []dst.Spec{&dst.ImportSpec{Path: &dst.BasicLit{Value: "\"fmt\""}}}},
+			&dst.FuncDecl{Name: dst.NewIdent("main"), Type: &dst.FuncType{}, Body: &dst.BlockStmt{List: []dst.Stmt{
+				&dst.ExprStmt{X: &dst.CallExpr{Fun: &dst.Ident{Name: "Println", Path: "fmt"}, Args: []dst.Expr{
+					&dst.CompositeLit{Type: &dst.ArrayType{Elt: dst.NewIdent("int")}, Elts: []dst.Expr{&dst.BasicLit{Value: "1"}}},
+					&dst.CallExpr{Fun: &dst.Ident{Name: "Join", Path: "strings"}}}}},
+				&dst.IfStmt{Cond: dst.NewIdent("true"), Body: &dst.BlockStmt{}},
+				&dst.ForStmt{Body: &dst.BlockStmt{List: []dst.Stmt{&dst.BranchStmt{Tok: token.BREAK}}}},
+			}}},
+		}},
 	}
 }
